@@ -51,7 +51,7 @@ pub fn show<U: User, E: Engine<U>>(t: &LTerm<U, E>, out: &mut String) {
         }
         LTermInner::Compound(c) => {
             out.push('{');
-            out.push_str(c.type_name());
+            out.push_str(if c.type_name().is_empty() { "Tup" } else { c.type_name() });
             kids(c.as_ref(), out);
             out.push('}')
         }
@@ -65,7 +65,11 @@ fn kids<U: User, E: Engine<U>>(c: &dyn proto_vulcan::compound::CompoundObject<U,
                 out.push(' ');
                 show(t, out)
             }
-            None => kids(child, out),
+            None => {
+                out.push_str(" {Opt");
+                kids(child, out);
+                out.push('}')
+            }
         }
     }
 }
